@@ -47,6 +47,10 @@ def proofStep (key : Bytes) (m : Mac Bytes) : Sx → Option (Mac Bytes × String
   | .atom "encode" =>
     let (m', b) := encode m
     some (m', "enc:" ++ (match b with | some b => hx b | none => "err"))
+  | .atom "encfail" =>
+    -- an Encode that fails in serialisation (a caveat became unserialisable): the state change of Encode -
+    -- finalise a new proof, once - has happened all the same
+    some (encodeState m, "encfail:err")
   | .atom "clone" =>
     -- Clone = Encode then Decode; the observable is the clone's own encoding
     let (m', b) := encode m
